@@ -12,12 +12,14 @@ inductive Event where
   | custom (type data : Bytes)
 deriving Repr, DecidableEq
 
-/-- Rust `str::lines`: split at LF, strip one trailing CR from each line, and no final empty line
-    for a trailing LF (nor any line for the empty string). -/
+/-- Rust `str::lines`: lines are terminated by LF or CRLF (the terminator is removed); a final
+    unterminated piece is a line only if it is non-empty, and keeps a trailing bare CR. -/
 def rustLines (s : Bytes) : List Bytes :=
   let parts := splitOn 10 s
-  let parts := if parts.getLast? = some [] then parts.dropLast else parts
-  parts.map fun l => if l.getLast? = some 13 then l.dropLast else l
+  let terminated := parts.dropLast.map fun l => if l.getLast? = some 13 then l.dropLast else l
+  match parts.getLast? with
+  | some last => if last = [] then terminated else terminated ++ [last]
+  | none => terminated
 
 /-- `Event::push_to` / `write_to`: `event: <type>\n` for custom events, then one `data: <line>\n`
     per line of the data — and nothing else (no terminating blank line). -/
